@@ -473,7 +473,40 @@ var Progs = []Prog{
 		}
 		return fmt.Sprint(n, b.f[1], ok, m["k"], len(e))
 	}, []string{"3 7 true 9 1"}},
+	{"slice-and-array-elements", func() string {
+		// element accesses in every syntactic position (the race instrumentation wraps them)
+		type cell struct{ v int }
+		buf := make([]byte, 4)
+		cells := make([]cell, 2)
+		var arr [3]int
+		pa := &arr
+		var wg sync.WaitGroup
+		for g := 0; g < 2; g++ {
+			g := g
+			wg.Add(1)
+			go func() {
+				defer wg.Done()
+				buf[g] = byte(g + 1)
+				buf[g+2] += byte(10 * (g + 1))
+				cells[g].v = g + 5
+				pa[g]++
+			}()
+		}
+		wg.Wait()
+		buf[0], buf[1] = buf[1], buf[0]
+		p := &buf[3]
+		*p |= 1
+		arr[2] = len(buf[1:3])
+		str := "héllo"
+		sum := 0
+		for i := range cells {
+			sum += cells[i].v
+		}
+		return fmt.Sprint(buf, sum, arr, str[1] == 0xc3, first[int]([]int{4, 5}))
+	}, []string{"[2 1 10 21] 11 [1 1 2] true 4"}},
 }
+
+func first[T any](xs []T) T { return xs[0] }
 
 // Names lists the program names.
 func Names() []string {
